@@ -247,7 +247,7 @@ func init() {
 		c.Rule = "seeded random configurations over creation method x argument form x position x fields x calls/withers x receiver kind x scope x getter, generated through the real binary, compiled against the pinned runtime and executed; every service fetched; object graphs compared with the reference container up to instance renaming. distinct = distinct YAML text; non-trivial = at least 4 probe operations judged and the configuration has a service with >=1 argument, field or call"
 		c.Assumptions = []string{"the fixture universe stands in for user code", "the reference container (engine/ref) is a faithful reading of docs/*.md and of the pinned runtime's documented behaviour", "configurations whose generated code does not compile are C01's business and are skipped here (counted)"}
 		n := c.Pick(400, 20000)
-		return behaviourCheck(c, n, func(r *rand.Rand, i int) (*cfg.Config, []probe.Op) {
+		if err := behaviourCheck(c, n, func(r *rand.Rand, i int) (*cfg.Config, []probe.Op) {
 			o := gen.DefaultOpts()
 			conf := gen.Behaviour(r, o)
 			return conf, StdOps(conf, r, false)
@@ -258,7 +258,20 @@ func init() {
 				}
 			}
 			return false
-		}, false)
+		}, false); err != nil {
+			return err
+		}
+		// symbols of the configuration's own package that are spelled like locals of the generated code
+		lab, err := probe.NewLab(c.W)
+		if err != nil {
+			return err
+		}
+		units, twins, labels := shadowUnits()
+		if err := runUnits(c, lab, units, false); err != nil {
+			return err
+		}
+		judgeShadowUnits(c, units, twins, labels)
+		return nil
 	})
 }
 
@@ -281,6 +294,81 @@ func sugarUnits(c *Ctx, units []*probe.Unit) {
 				u.Files[j].Content = y
 				c.Add("files_with_anchors_or_merge_keys", 1)
 			}
+		}
+	}
+}
+
+// shadowNames: symbols of the configuration's own package that are spelled like local variables of the generated
+// constructor function, by the role the fixture packages give them.
+var shadowNames = map[string][]string{
+	"constructor": {"newService", "c", "getParam", "dependencyService", "rootGontainer"},
+	"decorator":   {"s", "dependencyValue", "callProvider", "dependencyTag"},
+	"function":    {"getEnv", "getEnvInt", "paramTodo", "concatenateChunks", "dependencyProvider"},
+}
+
+// shadowUnits builds, for every such name, a small configuration that uses it (unqualified, i.e. from the current package) and
+// the twin that uses the canonical fixture symbol; both must behave the same.
+func shadowUnits() (units []*probe.Unit, twins []*cfg.Config, labels []string) {
+	canon := map[string]string{"constructor": "New", "decorator": "DecSame", "function": "Fn"}
+	mk := func(role, name string) *cfg.Config {
+		conf := &cfg.Config{Meta: cfg.Meta{Pkg: cfg.P("gen")}}
+		ctor, dec, fn := "New", "DecSame", "Fn"
+		switch role {
+		case "constructor":
+			ctor = name
+		case "decorator":
+			dec = name
+		case "function":
+			fn = name
+		}
+		conf.Meta.Functions = []cfg.KS{{K: "f", V: fn}}
+		conf.Params = []cfg.KV{{K: "p", V: cfg.Str(`%f(1, "a")%`)}, {K: "q", V: cfg.Str(`x-%f(2)%`)}}
+		conf.Services = []cfg.Service{
+			{Name: "a", Constructor: cfg.P(ctor), Args: []cfg.Val{cfg.Str("%p%"), cfg.Int(7)}, Tags: []cfg.Tag{{Name: "t"}}},
+			{Name: "b", Constructor: cfg.P(ctor), Args: []cfg.Val{cfg.Str("@a"), cfg.Str("%q%")}},
+			{Name: "noargs", Constructor: cfg.P(ctor)},
+		}
+		conf.Decorators = []cfg.Decorator{{Tag: "t", Decorator: dec, Args: []cfg.Val{cfg.Int(1)}}}
+		return conf
+	}
+	i := 0
+	for _, role := range []string{"constructor", "decorator", "function"} {
+		for _, name := range shadowNames[role] {
+			conf := mk(role, name)
+			ops := []probe.Op{{Op: "new"}, {Op: "param", Name: "p"}, {Op: "param", Name: "q"}, {Op: "get", Name: "a"}, {Op: "get", Name: "b"}, {Op: "get", Name: "noargs"}, {Op: "tagged", Name: "t"}}
+			units = append(units, &probe.Unit{ID: fmt.Sprintf("h%04d", i), Cfg: conf, Files: []probe.File{{Name: "gontainer.yaml", Content: conf.YAML()}}, Ops: ops})
+			twins = append(twins, mk(role, canon[role]))
+			labels = append(labels, role+":"+name)
+			i++
+		}
+	}
+	return
+}
+
+// judgeShadowUnits compares each unit with the reference run of its canonical twin.
+func judgeShadowUnits(c *Ctx, units []*probe.Unit, twins []*cfg.Config, labels []string) {
+	for k, u := range units {
+		c.Add("own_package_symbols_named_like_generated_locals", 1)
+		files := unitFiles(u)
+		sig := "own-package-symbol-shadowed-by-generated-local:" + labels[k]
+		if !u.Accepted {
+			c.Violate(sig, fmt.Sprintf("a configuration naming the symbol %s of its own package is rejected: %s", labels[k], rejectReason(u)), files)
+			continue
+		}
+		c.Eval("shadow:"+labels[k], true)
+		if !u.Compiled {
+			c.Violate(sig, fmt.Sprintf("%s: the generated code does not compile:\n%s", labels[k], firstLines(u.CompileErr, 8)), files)
+			continue
+		}
+		if len(u.Results) == 0 {
+			c.Violate(sig, fmt.Sprintf("%s: %s", labels[k], u.ProbeErr), files)
+			continue
+		}
+		exp := RunModel(twins[k], u.Ops, nil)
+		mm, _ := CompareHistory(u, exp, false)
+		if len(mm) > 0 {
+			files["mismatch.txt"] = mm[0].Text
+			c.Violate(sig, fmt.Sprintf("the symbol %s of the configuration's own package (role %s) is not what the generated container uses: a local variable of the generated code with the same name shadows it\n%s", strings.SplitN(labels[k], ":", 2)[1], strings.SplitN(labels[k], ":", 2)[0], mm[0].Text), files)
 		}
 	}
 }
